@@ -126,6 +126,12 @@ void h_layout(void) {
 #    define SBA_NF 7
 #endif
 #define CLS (s_bin_sizes[SBA_BIN])
+/* the same constants for the preprocessor (checked against the code's in any_bin_state) */
+#ifndef SBA_PAGE_C
+#    define SBA_PAGE_C 4096
+#endif
+#define CLS_C (32 << SBA_BIN)
+#define NCH_C ((SBA_PAGE_C - 32) / CLS_C)
 #define LIST_CAP_A (SBA_NP + 1) /* capacity (elements) of the pre-state lists: room for one push; growth is array_list's contract (C09) */
 #define LIST_CAP_F (SBA_NF + 1)
 
@@ -181,6 +187,7 @@ static size_t any_below(size_t n) {
 /* an arbitrary state of bin SBA_BIN that satisfies the invariant; every other bin is left arbitrary (never read) */
 static struct sba_bin *any_bin_state(void) {
     struct sba_bin *bin = &S.bins[SBA_BIN];
+    CHECK(SBA_PAGE_C == AWS_SBA_PAGE_SIZE && CLS_C == CLS && NCH_C == SBA_NCH(CLS) && sizeof(struct page_header) == 32, "harness constants equal the code's constants");
     S.allocator = &PARENT;
     g_par_acquires = g_par_releases = 0;
     g_last_error = 0; g_raise_count = 0;
@@ -309,9 +316,17 @@ void h_free_step(void) {
     CHECK(sba_bin_live_count(bin) != 0 || bin->active_pages.length == 0, "free: with nothing live the bin keeps at most its working page");
     CHECK(bin_same(&other0, &S.bins[other]), "free: other bins untouched");
 
+    /* an exhausted page can only be retired when all its other chunks are on the free list: reachable inside the free-list
+     * bound only for page/class configurations with at most SBA_NF + 1 chunks per page */
+#if NCH_C - 1 <= SBA_NF
     if (retire && free_in_pa == SBA_NCH(CLS) - 1) CANARY("free: page retired, all its other chunks purged from the free list");
+#    if NCH_C <= SBA_NF
     if (retire && nfree0 > free_in_pa) CANARY("free: page retired, free chunks of other pages kept");
+#    endif
     if (retire && bin->active_pages.length >= 1) CANARY("free: page retired, another exhausted page remains");
+#else
+    CHECK(!retire, "free: (bound) no page can be retired in this configuration");
+#endif
     if (!retire && a_in_work && live0 == 1) CANARY("free: last live chunk, working page kept");
     if (!retire && !a_in_work) CANARY("free: chunk of an exhausted page with other live chunks");
     if (have_w && sba_pidx(w) == pai) CANARY("free: witness in the same page");
